@@ -60,15 +60,16 @@ def harnesses():
     # LATTICE harnesses with the real multipliers (c02::mul_lattice / widening_lattice, 3 free bits per limb) were probed at
     # 192/256 bits and 192x192, 256x128, 256x256: CBMC exhausts 14 GB after 9-10 min (16+16 full 64x64 multiplier circuits
     # next to addmul's symbolic slices) - not registered; the bodies stay in c02.rs
-    SMALLDOM = ("unit-limb sub-domain: every limb of one operand 0 or 1, the other operand FULL, either operand order; UF layer, "
+    SMALLDOM = ("unit-limb sub-domain: every limb of one operand 0 or 1, the other operand FULL, one harness per operand order; UF layer, "
                 "exact on this sub-domain (all products fixed by the axioms 0*x = 0, 1*x = x)")
-    for b, tier in [(128, "quick"), (192, "thorough")]:   # 250/256/320/512: no result in 1500 s (probe)
+    for b, tier in [(128, "quick"), (192, "thorough"), (256, "thorough")]:   # 250/320/512: no result in 1500 s (both orders in one harness)
         l = nlimbs(b)
         w = 2 * l + 1
-        out.append(H("c02_mul_unit_%d" % b, "C02", "c02::mul_unit::<%d,%d,%d>" % (b, l, w), unwind=w + 2, tier=tier,
-                     inst="Uint<%d,%d>" % (b, l), domain=SMALLDOM, free_bits=b + l + 1, timeout=3600, stubs=UF,
-                     fns=["overflowing_mul", "wrapping_mul", "algorithms::addmul", "algorithms::addmul_n"],
-                     covers_required=["overflows", "fits-nonzero"]))
+        for sw in (0, 1):
+            out.append(H("c02_mul_unit_%d_%s" % (b, "ba" if sw else "ab"), "C02", "c02::mul_unit::<%d,%d,%d,%d>" % (b, l, w, sw),
+                         unwind=w + 2, tier=tier, inst="Uint<%d,%d>" % (b, l), domain=SMALLDOM, free_bits=b + l, timeout=3600, stubs=UF,
+                         fns=["overflowing_mul", "wrapping_mul", "algorithms::addmul", "algorithms::addmul_n"],
+                         role="c02::mul_unit", covers_required=["overflows", "fits-nonzero"]))
     for (b1, b2), tier in [((192, 192), "quick")]:   # 256x256: no result in 1500 s (probe)
         l1, l2 = nlimbs(b1), nlimbs(b2)
         br = b1 + b2
